@@ -199,13 +199,31 @@ class SymStr:
 
     def strip(self, chars=None):
         if chars is not None:
-            raise core.HarnessError("strip(chars) on a symbolic string")
+            return self.lstrip(chars).rstrip(chars)
         a, b = 0, len(self.chars)
         while a < b and self._in_ranges(self.chars[a], self._SPACE):
             a += 1
         while b > a and self._in_ranges(self.chars[b - 1], self._SPACE):
             b -= 1
         return SymStr(self.chars[a:b])
+
+    def _strip_test(self, chars):
+        if chars is None:
+            return lambda c: self._in_ranges(c, self._SPACE)
+        codes = [ord(ch) for ch in (chars.concrete() if isinstance(chars, SymStr) else chars)]
+        return lambda c: self._in_ranges(c, [(k, k) for k in codes])
+
+    def lstrip(self, chars=None):
+        t, a = self._strip_test(chars), 0
+        while a < len(self.chars) and t(self.chars[a]):
+            a += 1
+        return SymStr(self.chars[a:])
+
+    def rstrip(self, chars=None):
+        t, b = self._strip_test(chars), len(self.chars)
+        while b > 0 and t(self.chars[b - 1]):
+            b -= 1
+        return SymStr(self.chars[:b])
 
     def splitlines(self, keepends=False):
         out, cur, i = [], [], 0
@@ -288,6 +306,30 @@ def hashed_name(source: SymStr) -> SymStr:
         c.add(src.eq_term(source) == o.eq_term(out), definitional=True)
     reg.append((source, out))
     return out
+
+
+def parse_int(s: "SymStr", base: int = 10):
+    """int(s, base) for a SymStr of digits (base 10 or 16): ValueError paths fork, the value is linear in the digits"""
+    if base not in (10, 16):
+        raise core.HarnessError(f"int(str, {base}) on a symbolic string")
+    if s.is_concrete():
+        return int(s.concrete(), base)
+    if not s.chars:
+        raise ValueError("invalid literal for int() with base %d: ''" % base)
+    total = None
+    for c in s.chars:
+        if not isinstance(c, SymNum):
+            v = int(chr(c), base)
+        else:
+            t = c.t
+            ok = z3.And(t >= 48, t <= 57)
+            if base == 16:
+                ok = z3.Or(ok, z3.And(t >= 65, t <= 70), z3.And(t >= 97, t <= 102))
+            if not bool(SymBool(ok)):
+                raise ValueError("invalid literal for int() with base %d" % base)
+            v = SymNum(z3.If(t <= 57, t - 48, z3.If(t <= 70, t - 55, t - 87)))
+        total = v if total is None else total * base + v
+    return total
 
 
 def fmt_hex(n, width=0) -> SymStr:
@@ -385,6 +427,8 @@ class Ops:
                 return len(a[0])
             if f is str:
                 return SymStr.of(a[0])
+            if f is int and isinstance(a[0], SymStr):
+                return parse_int(a[0], *(a[1:] or (k.get("base", 10),)))
             if f is ord and isinstance(a[0], SymStr):
                 c = a[0].chars[0]
                 return c
